@@ -8,10 +8,17 @@ def lib():
     return elm, Network, Branch
 
 
-def element(b):
+def _np_scalar(z):
+    """the same number as a NumPy scalar (what np.sqrt(2)*230, np.exp(1j*phi) or an array element hand to the library)"""
+    import numpy as np
+    z = complex(z)
+    return np.float64(z.real) if z.imag == 0 else np.complex128(z)
+
+
+def element(b, numpy_scalars=False):
     elm, _, _ = lib()
     n1, n2, kind, bid, p = b
-    c = rn.c
+    c = (lambda x: _np_scalar(rn.c(x))) if numpy_scalars else rn.c
     if kind == "Z":
         return elm.impedance(bid, c(p[0]))
     if kind == "Y":
@@ -37,9 +44,9 @@ def element(b):
     raise ValueError(kind)
 
 
-def network(nl):
+def network(nl, numpy_scalars=False):
     _, Network, Branch = lib()
-    return Network([Branch(b[0], b[1], element(b)) for b in nl["branches"]], node_zero_label=nl["ref"])
+    return Network([Branch(b[0], b[1], element(b, numpy_scalars)) for b in nl["branches"]], node_zero_label=nl["ref"])
 
 
 def _num(x):
